@@ -13,6 +13,7 @@ ALL_OPTS = {'faults': True, 'body_effects': True, 'interrupts': True, 'control':
 class RecorderProp(Prop):
     CORRESPONDENCE = 'PlaybackModel.Recorder (exec / runOperation / runPlay / runPlain) vs playback.tape_recorder.TapeRecorder'
     PARALLEL = 14
+    CASE_WATCHDOG = 20      # seconds; a case normally takes milliseconds. A run that blocks is interrupted (engine.Hang) and observed
     TRUSTED = ['correspondence harness: harness/recorder_sim.py (real TapeRecorder behind a spy cassette, scripted PRNG and '
                'clock), harness/recorder_gen.py, Lean driver Drive/Recorder.lean (script -> Prog embedding)',
                'values are opaque atoms in the recorder model: serialisation faithfulness is C06/C07; structured keys, '
@@ -23,6 +24,10 @@ class RecorderProp(Prop):
                    'values of the serializer\'s faithful domain; no object shared between two keys of one recording (K7)']
     OPTS = dict(ALL_OPTS)
     N = {'quick': 2000, 'thorough': 20000}
+
+    def case_watchdog(self, case):
+        # plain histories only (the families with their own schedulers / child processes keep their own time limits)
+        return self.CASE_WATCHDOG if isinstance(case, dict) and 'kind' not in case and 'runs' in case else None
 
     def gen_one(self, rng, tier):
         return rg.gen_history(rng, self.OPTS)
